@@ -1,6 +1,7 @@
 import SaramaVerif.Model.BalanceRange
 import SaramaVerif.Model.BalanceRoundRobin
 import SaramaVerif.Lemmas.C08Valid
+import SaramaVerif.Lemmas.C08StickyFinal
 /-
   C08 — every balance strategy yields a valid partition assignment.
   Property theorems only; helper developments are in Lemmas/C08*.lean.
@@ -213,5 +214,168 @@ example : rrPlan [(1, [0, 1]), (2, [1]), (3, [0])] false [(0, 0), (0, 1), (0, 2)
 
 /-- the F13 shape: topic 1 has a partition and no subscriber — the model loop is not left -/
 example : rrPlan [(1, [0]), (2, [0])] false [(0, 0), (0, 1), (1, 0)] = .diverges := by decide
+
+/-! ## Sticky -/
+
+/-- Every plan the (guarded variant of the) sticky strategy returns is valid — for ANY previous assignment state:
+    `pp` is whatever `prepopulateCurrentAssignments` made of the members' user data (one current owner per
+    claimed partition, owners and claimed partitions arbitrary: stale, conflicting, partly deleted), `ops` is any
+    sequence of operations whose guards (the code's conditions) hold, i.e. any map iteration order, any partition
+    order, any choice of the "actual partition to be moved", with or without revert. -/
+theorem sticky_valid (ms : Members) (ts : Topics) (env : SEnv) (wf : SWf ms ts env)
+    (pp : List (TP × Member × Option Member)) (hpp : (pp.map (·.1)).Nodup)
+    (ops : List SOp) (st : SState)
+    (hrun : runOps .guarded env (initState ms ts pp) ops = some st) (hass : st.assigned = true) :
+    validPlan ms ts (finish .guarded st) = true :=
+  (SInv.run wf ops _ st (SInv.init wf pp hpp) hrun).finish_valid wf hass
+
+/-- the state invariant behind it, for every reachable state (also mid-run) -/
+theorem sticky_invariant (ms : Members) (ts : Topics) (env : SEnv) (wf : SWf ms ts env)
+    (pp : List (TP × Member × Option Member)) (hpp : (pp.map (·.1)).Nodup)
+    (ops : List SOp) (st : SState) (hrun : runOps .guarded env (initState ms ts pp) ops = some st) :
+    SInv env st :=
+  SInv.run wf ops _ st (SInv.init wf pp hpp) hrun
+
+private theorem guard_weaken (env : SEnv) (st : SState) (op : SOp) (h : Model.Balance.guard .guarded env st op = true) :
+    Model.Balance.guard .pinned env st op = true := by
+  cases op with
+  | movePrev p q =>
+    simp only [Model.Balance.guard, Bool.and_eq_true] at h ⊢
+    refine ⟨h.1, ?_⟩
+    cases ho : ownerGet st.owner p with
+    | none => rw [ho] at h; exact h.2
+    | some c =>
+      cases hn : prevOf env p with
+      | none => rw [ho, hn] at h; exact h.2
+      | some pm =>
+        rw [ho, hn] at h
+        simp only [Bool.and_eq_true] at h ⊢
+        exact ⟨h.2.1, trivial⟩
+  | _ => exact h
+
+private theorem apply_same (env : SEnv) (st : SState) (op : SOp) (h : op ≠ .revert) :
+    Model.Balance.apply .pinned env st op = Model.Balance.apply .guarded env st op := by
+  cases op with
+  | revert => exact absurd rfl h
+  | _ => rfl
+
+private theorem not_reverted (v : Variant) (env : SEnv) : ∀ (ops : List SOp) (st st' : SState),
+    SOp.revert ∉ ops → st.reverted = false → runOps v env st ops = some st' → st'.reverted = false := by
+  intro ops
+  induction ops with
+  | nil => intro st st' _ h hr; simp only [runOps, Option.some.injEq] at hr; subst hr; exact h
+  | cons op rest ih =>
+    intro st st' hno h hr
+    rw [runOps] at hr
+    split at hr
+    · apply ih _ _ (fun hm => hno (List.mem_cons_of_mem _ hm)) ?_ hr
+      have hne : op ≠ .revert := fun e => hno (e ▸ List.mem_cons_self)
+      cases op with
+      | revert => exact absurd rfl hne
+      | assignAll us => exact h
+      | park m => exact h
+      | snapshot => exact h
+      | movePrev p q =>
+        simp only [Model.Balance.apply]
+        cases prevOf env p with
+        | none => exact h
+        | some pm => simp only; unfold processMove; cases ownerGet st.owner q <;> exact h
+      | moveOther p q =>
+        simp only [Model.Balance.apply]
+        cases newConsumerFor st.cur env.pot p with
+        | none => exact h
+        | some pm => simp only; unfold processMove; cases ownerGet st.owner q <;> exact h
+    · cases hr
+
+private theorem run_pinned_of_guarded (env : SEnv) : ∀ (ops : List SOp) (st st' : SState),
+    SOp.revert ∉ ops → runOps .guarded env st ops = some st' → runOps .pinned env st ops = some st' := by
+  intro ops
+  induction ops with
+  | nil => intro st st' _ h; exact h
+  | cons op rest ih =>
+    intro st st' hno h
+    rw [runOps] at h ⊢
+    by_cases hg : Model.Balance.guard .guarded env st op = true
+    · rw [if_pos hg] at h
+      rw [if_pos (guard_weaken env st op hg), apply_same env st op (fun e => hno (e ▸ List.mem_cons_self))]
+      exact ih _ _ (fun hm => hno (List.mem_cons_of_mem _ hm)) h
+    · rw [if_neg hg] at h; cases h
+
+/-- PARTIAL, for the tree as pinned.  Missing for the full statement: (1) the "previous owner" branch checks
+    only the sizes, so a run may move a partition to a member that is parked or does not list the topic;
+    (2) the revert restores a copy that `Plan` never sees.  Under the exact extra hypotheses that every operation of
+    the run also passes the strengthened guard and that no revert happens, the pinned code takes the same steps
+    and returns the same, valid, plan. -/
+theorem sticky_valid_partial (ms : Members) (ts : Topics) (env : SEnv) (wf : SWf ms ts env)
+    (pp : List (TP × Member × Option Member)) (hpp : (pp.map (·.1)).Nodup)
+    (ops : List SOp) (st : SState) (hno : SOp.revert ∉ ops)
+    (hrun : runOps .guarded env (initState ms ts pp) ops = some st) (hass : st.assigned = true) :
+    runOps .pinned env (initState ms ts pp) ops = some st ∧ validPlan ms ts (finish .pinned st) = true := by
+  refine ⟨run_pinned_of_guarded env ops _ st hno hrun, ?_⟩
+  have hr : st.reverted = false := not_reverted .guarded env ops _ st hno rfl hrun
+  have : finish .pinned st = finish .guarded st := by unfold finish; rw [hr]
+  rw [this]
+  exact sticky_valid ms ts env wf pp hpp ops st hrun hass
+
+/-! ### the two defects of the pinned tree, as accepted runs of the model (kernel-checked) -/
+
+/-- F12 witness: members 1{t2; claims t1/0 at generation 1}, 2{t1; claims t1/0,1,2 at generation 2}, 3{t1};
+    topics t1, t2 with partitions 0,1,2.  Member 1 gets all of t2 and is parked; the previous-owner branch then
+    hands it t1/0, and adding the fixed assignments back overwrites that: t1/0 is in nobody's plan.
+    (The real `BalanceStrategySticky.Plan` returns exactly this plan.) -/
+def f12Members : Members := [(1, [2]), (2, [1]), (3, [1])]
+def f12Topics : Topics := [(1, [0, 1, 2]), (2, [0, 1, 2])]
+def f12Env : SEnv :=
+  { pot := potOf f12Members f12Topics, prev := [((1, 0), 1)], reassignable := [(1, 0), (1, 1), (1, 2)],
+    initializing := true, parts := allParts f12Topics }
+def f12Ops : List SOp :=
+  [.assignAll [(2, 1), (2, 0), (2, 2)], .park 1, .snapshot, .movePrev (1, 0) (1, 0), .moveOther (1, 1) (1, 1)]
+
+example : (runOps .pinned f12Env
+      (initState f12Members f12Topics [((1, 0), 2, some 1), ((1, 1), 2, none), ((1, 2), 2, none)]) f12Ops).map
+      (fun st => (finish .pinned st, validPlan f12Members f12Topics (finish .pinned st))) =
+    some ([(2, [(1, 2)]), (3, [(1, 1)]), (1, [(2, 1), (2, 0), (2, 2)])], false) := by decide
+
+/-- … and the strengthened guard refuses that run -/
+example : runOps .guarded f12Env
+    (initState f12Members f12Topics [((1, 0), 2, some 1), ((1, 1), 2, none), ((1, 2), 2, none)]) f12Ops = none := by
+  decide
+
+/-- revert witness: members 1{t2; claims t1/0, t2/0 at generation 1}, 2{t1; claims t1/0,1,2 at generation 2},
+    3{t1; claims t1/3 at generation 2}; t1 has partitions 0..3, t2 has partition 0.  Member 1 keeps t2/0 and is
+    parked; the previous-owner branch moves t1/0 to it, the score does not improve, `balance` reverts its local
+    copy and adds the fixed assignment to that copy: `Plan` returns member 1 with t1/0 (a topic it does not list)
+    and t2/0 unassigned.  (Again exactly what the real code returns.) -/
+def revMembers : Members := [(1, [2]), (2, [1]), (3, [1])]
+def revTopics : Topics := [(1, [0, 1, 2, 3]), (2, [0])]
+def revEnv : SEnv :=
+  { pot := potOf revMembers revTopics, prev := [((1, 0), 1)], reassignable := [(1, 0), (1, 1), (1, 2), (1, 3)],
+    initializing := false, parts := allParts revTopics }
+def revOps : List SOp := [.assignAll [], .park 1, .snapshot, .movePrev (1, 0) (1, 0), .revert]
+
+example : (runOps .pinned revEnv
+      (initState revMembers revTopics [((1, 0), 2, some 1), ((1, 1), 2, none), ((1, 2), 2, none), ((1, 3), 3, none), ((2, 0), 1, none)])
+      revOps).map (fun st => (finish .pinned st, validPlan revMembers revTopics (finish .pinned st))) =
+    some ([(2, [(1, 1), (1, 2)]), (3, [(1, 3)]), (1, [(1, 0)])], false) := by decide
+
+/-- non-vacuity of `sticky_valid`: an accepted guarded run on a group with a member that joins late
+    (members 1{t1}, 2{t1}, 3{t1}; member 1 held all of t1 = 0..3): two moves to the least loaded member -/
+def nvMembers : Members := [(1, [1]), (2, [1]), (3, [1])]
+def nvTopics : Topics := [(1, [0, 1, 2, 3])]
+def nvEnv : SEnv :=
+  { pot := potOf nvMembers nvTopics, prev := [], reassignable := [(1, 0), (1, 1), (1, 2), (1, 3)],
+    initializing := true, parts := allParts nvTopics }
+
+example : (runOps .guarded nvEnv
+      (initState nvMembers nvTopics [((1, 0), 1, none), ((1, 1), 1, none), ((1, 2), 1, none), ((1, 3), 1, none)])
+      [.assignAll [], .snapshot, .moveOther (1, 0) (1, 0), .moveOther (1, 1) (1, 1)]).map
+      (fun st => (finish .guarded st, st.assigned)) =
+    some ([(1, [(1, 2), (1, 3)]), (2, [(1, 0)]), (3, [(1, 1)])], true) := by decide
+
+example : SWf nvMembers nvTopics nvEnv :=
+  ⟨rfl, rfl, by decide, by decide, by decide, by
+    intro p hp
+    have : ∀ p ∈ nvEnv.reassignable, canPartitionParticipate nvEnv.pot p = true ∧ p ∈ nvEnv.parts := by decide
+    exact this p hp⟩
 
 end Props.C08
